@@ -89,7 +89,7 @@ def _inlinable_def(fn: ast.FunctionDef) -> bool:
     a = fn.args
     if a.vararg or a.kwarg or a.posonlyargs:
         return False
-    if fn.decorator_list:
+    if fn.decorator_list and [ast.unparse(d) for d in fn.decorator_list] != ["staticmethod"]:
         return False
     if isinstance(fn, ast.AsyncFunctionDef):
         return False
@@ -184,7 +184,7 @@ def _expand_call(callee: ast.FunctionDef, call: ast.Call, skip_self: bool, self_
     last = callee.body[-1] if callee.body else call
     tail_assign = ast.copy_location(ast.Assign(targets=[ast.Name(id=ret, ctx=ast.Store())], value=ast.Constant(value=None)), last)
     tail_break = ast.copy_location(ast.Break(), last)
-    if not (new_body and isinstance(new_body[-1], ast.Break)):
+    if not (new_body and _terminal(new_body[-1])):
         new_body += [tail_assign, tail_break]
     loop = ast.While(test=ast.Constant(value=True), body=new_body or [tail_assign, tail_break], orelse=[])
     ast.copy_location(loop, call)
@@ -194,6 +194,33 @@ def _expand_call(callee: ast.FunctionDef, call: ast.Call, skip_self: bool, self_
         ast.fix_missing_locations(s)
     res = ast.copy_location(ast.Name(id=ret, ctx=ast.Load()), call)
     return stmts, res
+
+
+def _terminal(st: ast.stmt) -> bool:
+    """does control never continue after *st* (it ends in break / raise on every branch)?  Only the wrapper's own `break`
+    (a rewritten return) counts: loops of the callee never contain one (see _inlinable_def)."""
+    if isinstance(st, (ast.Break, ast.Raise)):
+        return True
+    if isinstance(st, ast.If):
+        return bool(st.body) and bool(st.orelse) and _terminal(st.body[-1]) and _terminal(st.orelse[-1])
+    if isinstance(st, ast.With):
+        return False        # a context manager may swallow an exception raised in its body
+    if isinstance(st, ast.Try):
+        if st.finalbody and _terminal(st.finalbody[-1]):
+            return True
+        body_end = st.orelse[-1] if st.orelse else (st.body[-1] if st.body else None)
+        if body_end is None:
+            return False
+        inner = body_end
+        # a `with open(...)` whose body returns: files do not swallow exceptions, but stay conservative unless the
+        # with-body itself is terminal *and* every handler is
+        if isinstance(inner, ast.With):
+            inner_ok = bool(inner.body) and _terminal(inner.body[-1]) and all(
+                isinstance(i.context_expr, ast.Call) and isinstance(i.context_expr.func, ast.Name) and i.context_expr.func.id == "open" for i in inner.items)
+        else:
+            inner_ok = _terminal(inner)
+        return inner_ok and all(h.body and _terminal(h.body[-1]) for h in st.handlers)
+    return False
 
 
 def _single_return_expr(fn: ast.FunctionDef) -> Optional[ast.expr]:
@@ -448,7 +475,7 @@ def normalize_module_trees(modules: Dict[str, ast.Module]) -> List[str]:
                             if not d or d[0] is fn or not _inlinable_def(d[0]) or _calls(d[0], nm):
                                 return None
                             if "staticmethod" in [ast.unparse(x) for x in d[0].decorator_list]:
-                                return None
+                                return d[0], False, None
                             return d[0], True, f.value
                         return None
 
